@@ -74,6 +74,8 @@ class Corpus:
                 self.add_text(text, origin="interactions")
             for text in GD.composed(irng, 10 if self.tier == "quick" else 80):
                 self.add_text(text, origin="composed")
+            for text in GD.wide(irng, 2 if self.tier == "quick" else 12):
+                self.add_text(text, origin="wide")
         tries = 0
         while len(self.descs) < self.n_desc + len(self.extra_texts) and tries < self.n_desc * 3:
             tries += 1
